@@ -7,7 +7,7 @@ import sys
 from mc import decobs, shapes
 from mc.core import pmap, short_hash, run_tasks
 from mc.decobs import typed
-from props.chaincommon import ast_of_tables, tables_of_ast
+from props.chaincommon import DERIVE_RENAME, ast_of_tables, tables_of_ast
 from ref import chains, decmodel
 
 REPO = os.environ.get("VERIF_REPO", "/repo")
@@ -22,7 +22,7 @@ def involved(t):
     return sorted(s)
 
 
-def check_scenario(p, tables, t, tag, stable_sets):
+def check_scenario(p, tables, t, tag, stable_sets, derive=False):
     """Compare build_decay_chains for every mother of the scenario and every stable set."""
     fails = []
     n = 0
@@ -30,7 +30,7 @@ def check_scenario(p, tables, t, tag, stable_sets):
     for m in t:
         mm = m + tag
         for S in stable_sets:
-            Sr = [s + tag if s in tabs else s for s in S]
+            Sr = [s + tag if s in tabs else (DERIVE_RENAME.get(s, s) if derive else s) for s in S]
             n += 1
             try:
                 got = p.build_decay_chains(mm, stable_particles=Sr)
@@ -55,13 +55,13 @@ def check_scenario(p, tables, t, tag, stable_sets):
     return fails, n
 
 
-def run_one(t, all_subsets=True):
-    ast = ast_of_tables(t)
+def run_one(t, all_subsets=True, derive=False):
+    ast = ast_of_tables(t, rename=DERIVE_RENAME if derive else None, derive=derive)
     p = decobs.parse_text(decmodel.render(ast))
     tables = tables_of_ast(ast)
     names = involved(t)
     S = list(shapes.subsets(names)) if len(names) <= 6 and all_subsets else stable_sets_for(t)
-    return check_scenario(p, tables, t, "", S)
+    return check_scenario(p, tables, t, "", S, derive)
 
 
 def stable_sets_for(t):
@@ -75,7 +75,10 @@ def stable_sets_for(t):
 def work_pack(items):
     """items: list of table sets; packed into one file with names renamed apart."""
     fails, outs = [], set()
-    asts = [ast_of_tables(t, f"_{i}") for i, t in enumerate(items)]
+    derive = bool(items) and isinstance(items[0], list) and items[0][0] == "derive"
+    if derive:
+        items = [it[1] for it in items]
+    asts = [ast_of_tables(t, f"_{i}", DERIVE_RENAME if derive else None, derive) for i, t in enumerate(items)]
     big = [st for a in asts for st in a]
     ntr = 0
     try:
@@ -83,7 +86,7 @@ def work_pack(items):
         tables = tables_of_ast(big)
         packed_fail = []
         for i, t in enumerate(items):
-            f, n = check_scenario(p, tables, t, f"_{i}", stable_sets_for(t))
+            f, n = check_scenario(p, tables, t, f"_{i}", stable_sets_for(t), derive)
             ntr += n
             if f:
                 packed_fail.append((i, f))
@@ -95,12 +98,12 @@ def work_pack(items):
         confirmed = False
         for t in cands:
             try:
-                f1, _n = run_one(t)
+                f1, _n = run_one(t, derive=derive)
             except Exception as e:  # noqa: BLE001
                 f1 = [([], "?", f"exception:{type(e).__name__}", repr(e))]
             for S, m, sig, d in f1:
                 confirmed = True
-                fails.append(("tables", {"tables": t, "stable": S, "mother": m}, sig, d, len(S) + sum(len(v) for v in t.values())))
+                fails.append(("tables", {"tables": t, "stable": S, "mother": m, "derive": derive}, sig + (":derived" if derive else ""), d, len(S) + sum(len(v) for v in t.values())))
         if not confirmed:
             S, m, sig, d = f[0]
             fails.append(("pack", {"tables_list": items}, sig + "@pack", d, 10 ** 6))
@@ -109,7 +112,9 @@ def work_pack(items):
 
 def exec_case(kind, payload):
     if kind == "tables":
-        f, _n = run_one(payload["tables"])
+        f, _n = run_one(payload["tables"], derive=payload.get("derive", False))
+        if payload.get("derive"):
+            return [(sig + ":derived", d) for _S, _m, sig, d in f]
         return [(sig, d) for _S, _m, sig, d in f]
     if kind == "pack":
         r = work_pack(payload["tables_list"])
@@ -175,6 +180,10 @@ def run(ctx):
     ctx.rng.shuffle(order)
     packs = [[sets[j] for j in order[i:i + 50]] for i in range(0, len(order), 50)]
     run_tasks(ctx, work_pack, packs)
+    # the same table sets with the table of X created by CopyDecay and that of Y by CDecay
+    dsets = [t for t in sets if "X" in t or "Y" in t][:: (1 if ctx.thorough else 2)]
+    run_tasks(ctx, work_pack, [[["derive", t] for t in dsets[i:i + 50]] for i in range(0, len(dsets), 50)])
+    ctx.part("derived-tables", table_sets=len(dsets), note="X via CopyDecay, Y via CDecay")
     # every <=1-line-per-particle scenario and all spines also unpacked
     small = [t for t in sets if sum(len(v) for v in t.values()) <= 2][: 400 if not ctx.thorough else None] + list(shapes.spine_table_sets())
     run_tasks(ctx, work_unpacked, [small[i:i + 10] for i in range(0, len(small), 10)])
